@@ -344,7 +344,8 @@ def replay_descriptors(p):
 
 def replay_rowcount(p):
     _quiet()
-    kind, nA, nB, first_is_a = p['args'][:4]
+    kind, first, other, first_is_a = p['args'][:4]
+    nA, nB = (first, other) if first_is_a else (other, first)
     from dliswriter import DLISFile
     a = np.arange(nA, dtype=np.int32)
     b = np.arange(nB, dtype=np.float64)
@@ -378,7 +379,7 @@ def replay_rowcount(p):
                     os.remove(p_)
                 except OSError:
                     pass
-    return _res(bad, {'rows': [nA, nB]}, {'nA': nA, 'nB': nB})
+    return _res(bad, {'rows': [nA, nB]}, {'first': first, 'other': other})
 
 
 def replay_bad_source(p):
@@ -544,3 +545,164 @@ def replay_two_frames(p):
         except OSError:
             pass
     return _res(bad, {'rows': [n1, n2]})
+
+
+INT_DT = ['int8', 'int16', 'int32', 'uint8', 'uint16', 'uint32']
+
+
+def _frame_attrs(data):
+    r = strict.parse_file(data)
+    lfv = r['logical_files'][0]
+    for rec, e in lfv.eflrs:
+        if e.set_type == 'FRAME':
+            ob, attrs = e.objects[0]
+            out = {}
+            for a in attrs:
+                out[a.label] = None if (a.absent or not a.has_value) else a.value[0]
+            return out
+    return {}
+
+
+def replay_spacing(p):
+    _quiet()
+    from dliswriter.logical_record.eflr_types.frame import FrameItem
+    ob = p.get('obligation', '')
+    a_ = p['args']
+    if 'unsigned_decreasing' in ob:
+        dti, vals = 3, list(a_[:3])
+    else:
+        dti, n = a_[0], a_[1]
+        vals = list(a_[2:5])[:n]
+    info = np.iinfo(INT_DT[dti])
+    if any(not (info.min <= v <= info.max) for v in vals):
+        return _res('', {'skipped': 'values outside the dtype'})
+    arr = np.array(vals, dtype=INT_DT[dti])
+    import warnings
+    with warnings.catch_warnings():
+        warnings.simplefilter('ignore')
+        spacing, direction = FrameItem._compute_spacing_and_direction(arr)
+    n = len(vals)
+    bad = ''
+    argmap = {'dtype': INT_DT[dti], 'values': vals}
+    if n == 1:
+        if spacing is not None or direction is not None:
+            bad = f'single row: spacing {spacing}, direction {direction}'
+    else:
+        diffs = [vals[i + 1] - vals[i] for i in range(n - 1)]
+        if len(set(diffs)) == 1 and (spacing is None or spacing != diffs[0]):
+            bad = f'{INT_DT[dti]} index {vals}: spacing {spacing}, true difference {diffs[0]}'
+        inc, dec = all(x >= 0 for x in diffs), all(x <= 0 for x in diffs)
+        want = None if all(x == 0 for x in diffs) else True if inc else False if dec else None
+        if not bad and direction is not want:
+            bad = f'{INT_DT[dti]} index {vals}: direction {direction}, expected {want}'
+    if not bad and n >= 2:
+        # file level: the frame written for that index channel
+        from dliswriter import DLISFile
+        df = DLISFile()
+        lf = df.add_logical_file()
+        lf.add_origin('O', file_set_number=1, creation_time='2020/01/01 00:00:00')
+        ch = lf.add_channel('IDX', data=arr)
+        lf.add_frame('FR', channels=(ch,), index_type='BOREHOLE-DEPTH')
+        path = fresh_tmp()
+        try:
+            df.write(path, output_chunk_size=65536)
+            at = _frame_attrs(open(path, 'rb').read())
+            if at.get('INDEX-MIN') != min(vals) or at.get('INDEX-MAX') != max(vals):
+                bad = f'INDEX-MIN/MAX {at.get("INDEX-MIN")}/{at.get("INDEX-MAX")} for {vals}'
+            diffs = [vals[i + 1] - vals[i] for i in range(n - 1)]
+            if not bad and len(set(diffs)) == 1 and at.get('SPACING') != diffs[0]:
+                bad = f'SPACING {at.get("SPACING")} written for {INT_DT[dti]} index {vals}'
+        except strict.StrictError as e:
+            bad = f'strict reader: {e}'
+        finally:
+            try:
+                os.remove(path)
+            except OSError:
+                pass
+    return _res(bad, {'dtype': INT_DT[dti], 'values': vals, 'spacing': None if spacing is None else float(spacing)}, argmap)
+
+
+def replay_params(p):
+    _quiet()
+    from dliswriter import DLISFile, high_compatibility_mode
+    import contextlib
+    has_type, u_min, u_max, u_sp, u_dir, uniform, rows, mode = p['args'][:8]
+    vals = ([10, 12, 14, 16] if uniform else [10, 12, 19, 31])[:rows]
+    really_uniform = uniform or rows <= 2
+    path = fresh_tmp()
+    bad = ''
+    try:
+        with (high_compatibility_mode() if mode else contextlib.nullcontext()):
+            df = DLISFile()
+            lf = df.add_logical_file()
+            lf.add_origin('O', file_set_number=1, creation_time='2020/01/01 00:00:00')
+            ch = lf.add_channel('IDX', data=np.array(vals, dtype=np.float64 if mode else np.int32), units='m')
+            lf.add_frame('FR', channels=(ch,), index_type='BOREHOLE-DEPTH' if has_type else None,
+                         index_min=1000.5 if u_min else None, index_max=2000.5 if u_max else None,
+                         spacing=77.5 if u_sp else None, direction='DECREASING' if u_dir else None)
+            try:
+                df.write(path, output_chunk_size=65536)
+                ok = True
+            except RuntimeError:
+                ok = False
+        must_fail = mode and has_type and (not really_uniform or rows == 1)
+        if ok == must_fail:
+            bad = f'write succeeded={ok}, expected refusal={must_fail}'
+        if ok and not bad:
+            at = _frame_attrs(open(path, 'rb').read())
+            if not has_type:
+                want = {'INDEX-MIN': 1000.5 if u_min else 1, 'INDEX-MAX': 2000.5 if u_max else rows, 'SPACING': 77.5 if u_sp else 1}
+            else:
+                want = {'INDEX-MIN': 1000.5 if u_min else vals[0], 'INDEX-MAX': 2000.5 if u_max else vals[-1]}
+                want['SPACING'] = 77.5 if u_sp else (2 if (really_uniform and rows >= 2) else None)
+            for k, v in want.items():
+                if at.get(k) != v:
+                    bad = bad or f'{k} = {at.get(k)}, expected {v} (attributes {at})'
+            if u_dir and at.get('DIRECTION') != 'DECREASING':
+                bad = bad or f'DIRECTION {at.get("DIRECTION")}'
+    except strict.StrictError as e:
+        bad = f'strict reader: {e}'
+    finally:
+        try:
+            os.remove(path)
+        except OSError:
+            pass
+    return _res(bad, {'flags': p['args'][:8]})
+
+
+def replay_second_setup(p):
+    _quiet()
+    from dliswriter import DLISFile
+    a_ = p['args']
+    if len(a_) == 1:
+        has_type, rows1, rows2 = False, a_[0], a_[0]
+    else:
+        has_type, rows1, rows2 = a_[:3]
+    df = DLISFile()
+    lf = df.add_logical_file()
+    lf.add_origin('O', file_set_number=1, creation_time='2020/01/01 00:00:00')
+    ch = lf.add_channel('IDX')
+    lf.add_frame('FR', channels=(ch,), index_type='BOREHOLE-DEPTH' if has_type else None)
+    first = np.array([10, 12, 14, 16][:rows1], dtype=np.int32)
+    second = np.array([50, 55, 60, 65][:rows2], dtype=np.int32)
+    path = fresh_tmp()
+    bad = ''
+    try:
+        df.write(path, data={'IDX': first}, output_chunk_size=65536)
+        df.write(path, data={'IDX': second}, output_chunk_size=65536)
+        at = _frame_attrs(open(path, 'rb').read())
+        if has_type:
+            want = {'INDEX-MIN': 50, 'INDEX-MAX': int(second[-1]), 'SPACING': 5}
+        else:
+            want = {'INDEX-MIN': 1, 'INDEX-MAX': rows2}
+        for k, v in want.items():
+            if at.get(k) != v:
+                bad = bad or f'second write: {k} = {at.get(k)}, expected {v} (values of the first write persist)'
+    except strict.StrictError as e:
+        bad = f'strict reader: {e}'
+    finally:
+        try:
+            os.remove(path)
+        except OSError:
+            pass
+    return _res(bad, {'rows': [rows1, rows2], 'index_type': bool(has_type)}, {'has_type': bool(has_type), 'rows1': rows1, 'rows2': rows2})
